@@ -37,6 +37,8 @@ def plan(tier, seed):
     ns = 16 if tier == "thorough" else 2
     for s in range(ns):
         jobs.append({"variant": "c" if s % 2 else "py", "part": "shapes", "shard": s, "nshards": ns, "params": {"stride": 1 if tier == "thorough" else 25}})
+    for s in range(ns):
+        jobs.append({"variant": "c" if s % 2 else "py", "part": "optree", "shard": s, "nshards": ns, "params": {"n": 100000 if tier == "thorough" else 6000}})
     if tier == "thorough":
         for s in range(16):
             jobs.append({"variant": "c" if s % 2 else "py", "part": "allports", "shard": s, "nshards": 16, "params": {}})
@@ -159,6 +161,27 @@ def verify(ctx, route, case, u, scheme, explicit, hostkind, sig):
     return not bad
 
 
+def invariant(ctx, u, case):
+    """The port model on a URL produced by ANY chain of operations: the written port is read off raw_authority by the reference
+    authority split; everything else (explicit_port, port, is_default_port, str, re-parse, host_port_subcomponent) must follow."""
+    ra = guarded(lambda: u.raw_authority)
+    if is_exc(ra) or not ra:
+        return
+    if u.scheme and not (u.scheme[0].isascii() and u.scheme[0].isalpha()):
+        return  # scheme-like prefix that RFC 3986 does not read as a scheme (C07 gray zone): the reference split of str() differs by construction
+    _, _, host_, ptxt, notes = rfc.split_authority(ra)
+    if not host_ or "text-before-bracket" in notes or "text-after-bracket" in notes or ("[" in ra) != ("]" in ra):
+        return
+    if ptxt is None or ptxt == "":
+        explicit = None
+    elif ptxt.isascii() and ptxt.isdigit() and int(ptxt) <= 65535:
+        explicit = int(ptxt)
+    else:
+        return  # not a port this route can have produced validly: C07's subject
+    verify(ctx, "optree", case, u, u.scheme, explicit, "any", ("optree", u.scheme, explicit is None, explicit == DEFAULT.get(u.scheme), case.get("used_intermediates")))
+    ctx.count("optree_checked")
+
+
 def survives(ctx, case, u, scheme, explicit, hk, sig):
     """Operations that rebuild the authority without touching the port must keep it (0 included)."""
     for name, fn, sch2 in (("with_user('')", lambda: u.with_user(""), scheme), ("with_user(None)", lambda: u.with_user(None), scheme), ("with_user('x')", lambda: u.with_user("x"), scheme),
@@ -192,6 +215,14 @@ def run(ctx):
         return run_allports(ctx)
     if ctx.part == "shapes":
         return run_shapes(ctx)
+    if ctx.part == "optree":
+        from ..ops import run_optrees
+
+        return run_optrees(ctx, invariant, ctx.params["n"], surrogates=True)
+    if ctx.part == "replay" and "op" in ctx.params["replay"]["case"]:
+        from ..ops import replay_optree
+
+        return replay_optree(ctx, ctx.params["replay"]["case"], invariant)
     if ctx.part == "replay":
         ctx.params["only"] = ctx.params["replay"]["case"]
     i = 0
